@@ -67,14 +67,13 @@ impl<S: Storage> TaskDb<S> {
             r matches Ok(v) ==> tasks_listed(v@, old(self).storage.view().tasks),
     { unimplemented!() }
 
-//@watch C18 C15 :: src/taskdb/mod.rs :: impl<S: Storage> TaskDb<S> :: fn working_set
+//@watch C15 :: src/taskdb/mod.rs :: impl<S: Storage> TaskDb<S> :: fn working_set
     #[verifier::external_body]
     pub fn working_set(&mut self) -> (r: Result<Vec<Option<Uuid>>>)
         ensures final(self).storage.view() == old(self).storage.view(),
             r matches Ok(v) ==> v@ == old(self).storage.view().ws && ws_wf(v@),
     { unimplemented!() }
 
-//@watch C18 :: src/taskdb/mod.rs :: impl<S: Storage> TaskDb<S> :: fn get_task
     #[verifier::external_body]
     pub fn get_task(&mut self, uuid: Uuid) -> (r: Result<Option<TaskMap>>)
         ensures final(self).storage.view() == old(self).storage.view(),
@@ -85,7 +84,6 @@ impl<S: Storage> TaskDb<S> {
             },
     { unimplemented!() }
 
-//@watch C18 :: src/taskdb/mod.rs :: impl<S: Storage> TaskDb<S> :: fn all_task_uuids
     #[verifier::external_body]
     pub fn all_task_uuids(&mut self) -> (r: Result<Vec<Uuid>>)
         ensures final(self).storage.view() == old(self).storage.view(),
